@@ -46,7 +46,7 @@ func withEps(sc *scenario, n, mainPos int, override bool) *scenario {
 			continue
 		}
 		for {
-			next = (next + 3) % len(pool.Ids)
+			next = (next + 3) % nSmall
 			if next != sc.Provider && next != sc.Signer && !named(sc, next) {
 				break
 			}
@@ -73,7 +73,7 @@ func (r *run) generate() {
 	// ---- A. shapes x signer key type x (provider signs itself / separate publisher)
 	for t := 0; t < nTypes; t++ {
 		signer := typeBase(t)
-		for _, provider := range []int{signer, (signer + 3) % len(pool.Ids)} {
+		for _, provider := range []int{signer, (signer + 3) % nSmall} {
 			for shape := 0; shape < 8; shape++ {
 				sc := baseScenario(seed(), signer, provider)
 				sc.Prev, sc.NoEntries, sc.Rm = shape&1 != 0, shape&2 != 0, shape&4 != 0
@@ -107,7 +107,7 @@ func (r *run) generate() {
 	// ---- B. every assignment of sealing keys to the entries (2 entries: 4 x 4)
 	for t := 0; t < nTypes; t++ {
 		signer := typeBase(t)
-		for _, provider := range []int{signer, (signer + 5) % len(pool.Ids)} {
+		for _, provider := range []int{signer, (signer + 5) % nSmall} {
 			for mainPos := 0; mainPos < 2; mainPos++ {
 				for a := 0; a < 16; a++ {
 					sc := withEps(baseScenario(seed(), signer, provider), 2, mainPos, a%3 == 0)
@@ -141,10 +141,10 @@ func (r *run) generate() {
 		signer := typeBase(t)
 		bases := []*scenario{
 			baseScenario(seed(), signer, signer),
-			func() *scenario { s := baseScenario(seed(), signer, (signer+3)%len(pool.Ids)); s.Prev = true; return s }(),
+			func() *scenario { s := baseScenario(seed(), signer, (signer+3)%nSmall); s.Prev = true; return s }(),
 			withEps(baseScenario(seed(), signer, signer), 3, 1, false),
 			func() *scenario {
-				s := withEps(baseScenario(seed(), signer, (signer+3)%len(pool.Ids)), 2, 0, true)
+				s := withEps(baseScenario(seed(), signer, (signer+3)%nSmall), 2, 0, true)
 				s.Prev = true
 				return s
 			}(),
@@ -209,7 +209,7 @@ func (r *run) generate() {
 					s.Codec, s.Mut = codec, mutation{Kind: k, Ep: -1}
 					r.emit(s)
 				}
-				for k := 0; k < len(pool.Ids); k += 3 {
+				for k := 0; k < nSmall; k += 3 {
 					s := b.clone()
 					s.Codec, s.Mut = codec, mutation{Kind: "resign-other", Ep: -1, Index: k}
 					r.emit(s)
@@ -251,12 +251,90 @@ func (r *run) generate() {
 		}
 	}
 
+	// ---- K. an ID listed twice: both copies genuinely signed (accepted); the second copy
+	// damaged / garbage / unsigned; an ID rewritten to an earlier one after signing; a garbage
+	// duplicate appended -- the main provider's ID and another one
+	for t := 0; t < nTypes; t++ {
+		signer := typeBase(t)
+		for _, provider := range []int{signer, (signer + 3) % nSmall} {
+			for _, dupMain := range []bool{false, true} {
+				mk := func() *scenario {
+					sc := withEps(baseScenario(seed(), signer, provider), 3, 0, t%2 == 0)
+					if dupMain {
+						sc.Eps[2].Named = sc.Provider // the main provider listed twice
+					} else {
+						sc.Eps[2].Named = sc.Eps[1].Named // another identity listed twice
+					}
+					sc.Eps[2].NAddrs, sc.Eps[2].MdLen = 2, 6
+					return sc
+				}
+				for _, codec := range []string{"", "dag-json", "dag-cbor"} {
+					sc := mk()
+					sc.Codec = codec
+					r.emit(sc) // both copies genuine
+				}
+				for _, k := range []string{"sig-garbage", "sig-empty", "sig-nil", "env-sig", "env-key", "ep-addr", "ep-md", "ep-clear-md", "ep-copy-addrs"} {
+					sc := mk()
+					sc.Mut = mutation{Kind: k, Ep: 2, Index: t + 3}
+					r.emit(sc) // the repeated entry tampered with
+				}
+				if dupMain { // (the key fetcher is asked by ID, so only the main provider's second entry can get a key of its own)
+					sc := mk()
+					sc.Eps[2].Sealer = firstOther(sc.Eps[2].Named, properSealer(sc, sc.Eps[2]))
+					r.emit(sc) // the repeated entry sealed by a foreign key
+				}
+			}
+			for ep := 1; ep < 3; ep++ {
+				for idx := 0; idx < 2; idx++ {
+					sc := withEps(baseScenario(seed(), signer, provider), 3, idx, false)
+					sc.Mut = mutation{Kind: "ep-id-earlier", Ep: ep, Index: idx}
+					sc.Codec = []string{"", "dag-cbor"}[idx]
+					r.emit(sc)
+				}
+			}
+			for ep := 0; ep < 2; ep++ {
+				for idx := 0; idx < 3; idx++ {
+					sc := withEps(baseScenario(seed(), signer, provider), 2, ep, idx == 1)
+					sc.Mut = mutation{Kind: "ep-dup-garbage", Ep: ep, Index: idx}
+					r.emit(sc)
+				}
+			}
+		}
+	}
+
+	// ---- J. an RSA-4096 identity as signer, as publisher, as extended provider: signature
+	// envelopes of 1138 bytes, through both codecs
+	if bigKey >= 0 {
+		for _, codec := range []string{"", "dag-json", "dag-cbor"} {
+			a := baseScenario(seed(), bigKey, bigKey) // signs for itself
+			a.Codec, a.Prev = codec, true
+			r.emit(a)
+			b := baseScenario(seed(), bigKey, 1) // publisher for a small provider
+			b.Codec = codec
+			r.emit(b)
+			c := withEps(baseScenario(seed(), bigKey, bigKey), 2, 0, false) // signer and main entry
+			c.Codec = codec
+			r.emit(c)
+			d := withEps(baseScenario(seed(), 0, 0), 2, 0, true) // an extended provider only
+			d.Eps[1].Named = bigKey
+			d.Codec = codec
+			r.emit(d)
+		}
+		e := baseScenario(seed(), bigKey, bigKey)
+		e.Mut = mutation{Kind: "metadata", Ep: -1}
+		r.emit(e)
+		f := withEps(baseScenario(seed(), 0, 0), 2, 0, false)
+		f.Eps[1].Named = bigKey
+		f.Mut = mutation{Kind: "env-sig", Ep: 1, Index: 5}
+		r.emit(f)
+	}
+
 	// ---- I. an entry's addresses / metadata cleared or replaced by the advertisement's own, for
 	// the main provider's entry and another one, starting from entries that are empty, that
 	// carry the advertisement's own values, and that carry values of their own
 	for t := 0; t < nTypes; t++ {
 		signer := typeBase(t)
-		for _, provider := range []int{signer, (signer + 3) % len(pool.Ids)} {
+		for _, provider := range []int{signer, (signer + 3) % nSmall} {
 			for shape := 0; shape < 3; shape++ { // 0: empty entry values, 1: the ad's own, 2: values of their own
 				for mainPos := 0; mainPos < 2; mainPos++ {
 					for _, k := range []string{"ep-clear-md", "ep-clear-addrs", "ep-copy-md", "ep-copy-addrs"} {
@@ -289,7 +367,7 @@ func (r *run) generate() {
 	// override, also through both codecs
 	for t := 0; t < nTypes; t++ {
 		signer := typeBase(t)
-		for _, provider := range []int{signer, (signer + 3) % len(pool.Ids)} {
+		for _, provider := range []int{signer, (signer + 3) % nSmall} {
 			for _, rm := range []bool{true, false} {
 				for _, emptyExt := range []bool{false, true} {
 					for n := 1; n <= 3; n++ {
@@ -313,7 +391,7 @@ func (r *run) generate() {
 	// ---- G. peer-ID SPELLINGS: the signature covers the string, whichever way the ID is written
 	for t := 0; t < nTypes; t++ {
 		signer := typeBase(t)
-		for _, provider := range []int{signer, (signer + 3) % len(pool.Ids)} {
+		for _, provider := range []int{signer, (signer + 3) % nSmall} {
 			for ps := 0; ps < nSpell; ps++ {
 				for _, codec := range []string{"", "dag-json", "dag-cbor"} {
 					a := baseScenario(seed(), signer, provider)
@@ -352,7 +430,7 @@ func (r *run) generate() {
 	// ---- F. what signing produces and refuses
 	for t := 0; t < nTypes; t++ {
 		signer := typeBase(t)
-		for _, provider := range []int{signer, (signer + 3) % len(pool.Ids)} {
+		for _, provider := range []int{signer, (signer + 3) % nSmall} {
 			for shape := 0; shape < 8; shape++ {
 				sc := baseScenario(seed(), signer, provider)
 				sc.Prev, sc.NoEntries, sc.Rm = shape&1 != 0, shape&2 != 0, shape&4 != 0
@@ -391,16 +469,16 @@ func firstOtherOfType(a, b, c, t int) int {
 	return 0
 }
 
-var allMuts = []string{"", "", "", "ep-clear-md", "ep-clear-addrs", "ep-copy-md", "ep-copy-addrs", "ep-attach", "ep-attach", "respell", "ep-respell", "prev", "entries", "provider", "addr", "metadata", "rm", "ctx", "override", "ep-id", "ep-addr", "ep-md",
+var allMuts = []string{"", "", "", "ep-id-earlier", "ep-dup-garbage", "ep-clear-md", "ep-clear-addrs", "ep-copy-md", "ep-copy-addrs", "ep-attach", "ep-attach", "respell", "ep-respell", "prev", "entries", "provider", "addr", "metadata", "rm", "ctx", "override", "ep-id", "ep-addr", "ep-md",
 	"ep-drop", "ep-dup", "ep-swap-sigs", "ext-remove", "shift", "env-key", "env-payload", "env-sig", "env-type", "env-byte",
 	"sig-empty", "sig-garbage", "sig-truncate", "sig-append", "resign-other", "ep-sig-as-ad-sig"}
 
 func (r *run) randomScenario(rng *vlib.Rand) *scenario {
 	for {
-		signer := rng.Intn(len(pool.Ids))
+		signer := rng.Intn(nSmall)
 		provider := signer
 		if rng.Intn(2) == 0 {
-			provider = rng.Intn(len(pool.Ids))
+			provider = rng.Intn(nSmall)
 		}
 		sc := baseScenario(rng.Uint64()|1, signer, provider)
 		sc.Prev, sc.NoEntries = rng.Bool(), rng.Intn(4) == 0
@@ -418,8 +496,11 @@ func (r *run) randomScenario(rng *vlib.Rand) *scenario {
 			for i := range sc.Eps {
 				sc.Eps[i].NAddrs, sc.Eps[i].MdLen = rng.Intn(3), rng.Intn(12)
 				sc.Eps[i].LikeAd = rng.Intn(5) == 0
+				if i > 0 && rng.Intn(6) == 0 {
+					sc.Eps[i].Named = sc.Eps[rng.Intn(i)].Named // an ID listed twice
+				}
 				if rng.Intn(6) == 0 {
-					sc.Eps[i].Sealer = rng.Intn(len(pool.Ids))
+					sc.Eps[i].Sealer = rng.Intn(nSmall)
 				}
 			}
 		}
@@ -444,7 +525,7 @@ func (r *run) randomScenario(rng *vlib.Rand) *scenario {
 		}
 		switch sc.Mut.Kind {
 		case "ep-id", "ep-addr", "ep-md", "ep-drop", "ep-dup", "ep-swap-sigs", "ep-sig-as-ad-sig", "ep-respell",
-			"ep-clear-md", "ep-clear-addrs", "ep-copy-md", "ep-copy-addrs":
+			"ep-clear-md", "ep-clear-addrs", "ep-copy-md", "ep-copy-addrs", "ep-id-earlier", "ep-dup-garbage":
 			if len(sc.Eps) == 0 {
 				continue
 			}
